@@ -679,4 +679,35 @@ theorem runSeq_quiet (ps : List Policy) (p : String) (evs : List REvent) :
           simp only [applyEvent, Bool.false_eq_true, if_false, hz, Nat.zero_add]
           exact ih st hu hqr
 
+/-! ### node repair: the Node → NodeClaim resolution -/
+
+/-- what `repairTWith true` (the lookup with its early return for a Node without provider id) deleted: the one
+    NodeClaim carrying the Node's (non-empty) provider id, and `repairB` on it issued the Delete -/
+theorem repairTWith_deleted (i : RepairTIn) (d : String) (h : d ∈ (repairTWith true i).deleted) :
+    ∃ c, c ∈ i.claims ∧ c.name = d ∧ i.nodePid ≠ "" ∧ c.pid = i.nodePid ∧ nodeClaimsForWith true i = [c] ∧
+      0 < (repair (i.view c)).deletes := by
+  unfold repairTWith at h
+  split at h
+  · simp at h
+  · split at h
+    · rename_i c hc
+      simp only at h
+      split at h
+      · rename_i hpos
+        simp only [List.mem_singleton] at h
+        have hmem : c ∈ nodeClaimsForWith true i := by rw [hc]; simp
+        unfold nodeClaimsForWith at hmem
+        by_cases hp : (i.nodePid == "") = true
+        · simp [hp] at hmem
+        · simp only [hp, Bool.and_false, Bool.false_eq_true, if_false, List.mem_filter, beq_iff_eq] at hmem
+          refine ⟨c, hmem.1, h.symm, ?_, hmem.2, hc, hpos⟩
+          simpa using hp
+      · simp at h
+    · simp at h
+
+/-- the code's lookup is the guarded one, as long as the regenerated control-flow fact says so -/
+theorem repairT_eq_guarded (hfact : Karp.Gen.Reapers.nodeClaimLookupSkipsEmptyProviderID = true) (i : RepairTIn) :
+    repairT i = repairTWith true i := by
+  unfold repairT; rw [hfact]
+
 end Karp.Reapers
